@@ -165,6 +165,7 @@ class SimCtl:
         self.executed = []
         self.alt = 0
         self.errors = []
+        self.in_run_mode = False
         self.probe_starting = False
         self.extra_on_handler = None
         self.obs = []
@@ -207,6 +208,10 @@ class SimCtl:
                     self.strategy = "pause" if a == 1 else ("continue", "warn_continue")[rank % 2]
                     sim.set_error_strategy(STRATEGY[self.strategy])
                     res.append(0); info.append("strat")
+                    continue
+                elif k == "endrep":       # the handler ends the replication
+                    sim.end_replication()
+                    res.append(0); info.append("endrep")
                     continue
                 elif k == "reinit":       # initialize while running: must be refused and change nothing
                     if not sim.is_starting_or_running():
@@ -357,6 +362,7 @@ class SimCtl:
         """Start / RunUpTo / RunUpToIncl, optionally pausing after the n-th event of the segment."""
         self.seg_count, self.pause_at = 0, pause_after
         self.reached.clear()
+        self.in_run_mode = True
         sim, c = self.sim, self.conc
         if name == "Start":
             e = self._call(name, sim.start, {"a": name})
@@ -382,6 +388,7 @@ class SimCtl:
             else:
                 self.errors.append("pause point not reached")
         ok = self.wait_quiescent()
+        self.in_run_mode = False
         self.pause_at = None
         if not ok:
             self.errors.append(f"not quiescent after {name}")
